@@ -213,6 +213,7 @@ func wiresNeeded(g gateSpec) int {
 
 func TestC15(t *testing.T) {
 	s := newSuite("C15")
+	compiledEvery = 50
 	r := s.r
 	defer r.Flush()
 	r.Rule("gate identifiers generated from plonky2's Debug grammar for all 14 supported gate types with parameters over the stated ranges (num_ops 1..20/10/13, limbs 1..63 x base 2..4, bits 1..5 x copies 1..4 x extra constants 0..2, power bits 1..67, coefficients 1..43/32, subgroup bits 2..4 x degree 2..6 with matching barycentric weights); rows: (random) all wires/constants random over GF(p^2), (honest) produced by semantic witness generators that run the gate's computation and record the witnesses, (honest-perturbed) an honest row with one used wire changed.  Oracles: the constraint vector returned by EvalUnfiltered equals the reference gate polynomial element-wise; on honest rows it is the zero vector.  Selector filtering: 2..8 random gates, 1..4 contiguous selector groups, selector openings drawn from {index of a gate in the group, the unused marker 2^32-1, random}; EvaluateGateConstraints equals sum of filter*gate position-wise per the reference.  Non-trivial = at least half of the used wires non-zero (random rows always are); distinct = full case.")
